@@ -196,6 +196,46 @@ type installation struct {
 
 var oddPrefixes = []string{"\xEF\xBB\xBF", "\xEF\xBB\xBF// c\n", "\uFEFF\n", "#!/usr/bin/env xjs\n", "\x00", "\u200b", "\u00a0", "\r\n", "\t\v\f ", "/**/", "<!-- x\n", "\xFF\xFE", "\u2028"}
 
+// specificStatement parses the step with the public parse function for the current token's kind, the way a
+// plugin that handles `function` or `{` itself does (typed nil results are turned into plain nil).
+func specificStatement(p *parser.Parser) ast.Statement {
+	switch p.CurrentToken.Type {
+	case token.LET:
+		if s := p.ParseLetStatement(); s != nil {
+			return s
+		}
+	case token.FUNCTION:
+		if s := p.ParseFunctionStatement(); s != nil {
+			return s
+		}
+	case token.RETURN:
+		if s := p.ParseReturnStatement(); s != nil {
+			return s
+		}
+	case token.IF:
+		if s := p.ParseIfStatement(); s != nil {
+			return s
+		}
+	case token.WHILE:
+		if s := p.ParseWhileStatement(); s != nil {
+			return s
+		}
+	case token.FOR:
+		if s := p.ParseForStatement(); s != nil {
+			return s
+		}
+	case token.LBRACE:
+		if s := p.ParseBlockStatement(); s != nil {
+			return s
+		}
+	default:
+		if s := p.ParseExpressionStatement(); s != nil {
+			return s
+		}
+	}
+	return nil
+}
+
 type bailoutPanic struct{}
 
 // recover0: the balance of an expression step is only judged when it returned normally
@@ -378,7 +418,12 @@ func (x *installation) add(k byte, via bool) {
 					if p.IsInFunction() {
 						st.Inc("probe.public_ParseStatement_inside_function_body")
 					}
-					s = p.ParseStatement()
+					if ch.Bool(1, 2) {
+						s = p.ParseStatement()
+					} else {
+						st.Inc("probe.statement_parsed_through_specific_public_parse_function")
+						s = specificStatement(p)
+					}
 					x.inStmtReenter = false
 				} else {
 					s = next()
@@ -766,6 +811,9 @@ func genCfg(ch *kernel.Chooser, forC16, big bool) gen.Config {
 		if ch.Bool(1, 10) {
 			// "at any depth": one forced chain of nested blocks and functions, far beyond what sampling reaches
 			cfg.DeepNest = 8 + ch.Choose(56)
+			if ch.Bool(1, 16) {
+				cfg.DeepNest = 100 + ch.Choose(450) // beyond any plausible fixed-size stack (64, 256, 1024 entries)
+			}
 		}
 	} else if ch.Bool(1, 40) {
 		cfg.DeepNest = 4 + ch.Choose(30)
@@ -1049,26 +1097,26 @@ func (e *Engine) Run(prop string, ch *kernel.Chooser, st *kernel.Stats) kernel.R
 				add("C04", "first-token", "first-token|statement-steps", fmt.Sprintf("statement interceptor saw current tokens %v, the program's statements start at tokens %v", refS, p.StmtStarts))
 			}
 			// every sub-expression of the (error-free) tree was obtained through an expression step of its own:
-		// an observer must have been entered at its first token
-		if valid && curBuild == 0 {
-			if bo := xutil.Parse(xutil.PlainBuilder(m), text); bo.Panic == nil && bo.Err == nil && bo.Program != nil {
-				seen := map[token.Position]bool{}
-				for _, er := range ref.exprRet {
-					seen[er.entry.Start] = true
-				}
-				xutil.WalkNodes(bo.Program, func(n any) {
-					var kids []roleExpr
-					exprChildren(n, &kids)
-					for _, k := range kids {
-						if lt, ok := leftmostExpr(k.e); ok && !seen[lt.Start] {
-							add("C04", "steps", "steps|expression-step-missing|"+k.role, fmt.Sprintf("no expression interceptor invocation started at %s, the first token of a %s sub-expression", xutil.TokString(lt), k.role))
-						}
+			// an observer must have been entered at its first token
+			if valid && curBuild == 0 {
+				if bo := xutil.Parse(xutil.PlainBuilder(m), text); bo.Panic == nil && bo.Err == nil && bo.Program != nil {
+					seen := map[token.Position]bool{}
+					for _, er := range ref.exprRet {
+						seen[er.entry.Start] = true
 					}
-				})
-				st.Inc("probe.expression_step_coverage_checked")
+					xutil.WalkNodes(bo.Program, func(n any) {
+						var kids []roleExpr
+						exprChildren(n, &kids)
+						for _, k := range kids {
+							if lt, ok := leftmostExpr(k.e); ok && !seen[lt.Start] {
+								add("C04", "steps", "steps|expression-step-missing|"+k.role, fmt.Sprintf("no expression interceptor invocation started at %s, the first token of a %s sub-expression", xutil.TokString(lt), k.role))
+							}
+						}
+					})
+					st.Inc("probe.expression_step_coverage_checked")
+				}
 			}
-		}
-		// every party saw the first token of the construct that was parsed
+			// every party saw the first token of the construct that was parsed
 			for _, rr := range []*recorder{ref, rec} {
 				for _, sr := range rr.stmtRet {
 					if lt, ok := leftmostStmt(sr.node); ok && (lt.Start != sr.entry.Start || lt.Type != sr.entry.Type) {
@@ -1100,6 +1148,9 @@ func (e *Engine) Run(prop string, ch *kernel.Chooser, st *kernel.Stats) kernel.R
 						kindName := map[byte]string{'S': "statement", 'E': "expression"}[c.kind]
 						if gt.CtxDepth >= 5 {
 							st.Inc("probe.depth_ge5")
+						}
+						if gt.CtxDepth >= 300 {
+							st.Inc("probe.context_stack_depth_ge300")
 						}
 						if gt.CtxDepth >= 40 {
 							st.Inc("probe.context_stack_depth_ge40")
@@ -1164,9 +1215,12 @@ func (e *Engine) Run(prop string, ch *kernel.Chooser, st *kernel.Stats) kernel.R
 			if curBuild > 0 {
 				faults = nil
 			}
-			if len(faults) > 300 {
+			if maxF := 300; len(faults) > maxF {
 				// very large (deep-nest) programs: a seeded sample of the fault positions
-				step := len(faults)/300 + 1
+				if len(p.Toks) > 1500 {
+					maxF = 60
+				}
+				step := len(faults)/maxF + 1
 				off := ch.Choose(step)
 				var sampled []faultsim.Fault
 				for i := off; i < len(faults); i += step {
